@@ -187,7 +187,7 @@ PROPS = {
     },
     'C13': {
         'id': 'C13', 'area': 'pipe',
-        'theorems': ['Props.C13_safety', 'Props.C13_complete'],
+        'theorems': ['Props.C13_safety', 'Props.C13_complete', 'Props.C13_no_deadlock', 'Props.C13_terminates'],
         'n_quick': 600, 'n_thorough': 20000,
     },
     'C09': {
